@@ -212,7 +212,8 @@ Theorem chain_iter_step_ext n0 s d M L i : NInv n0 s d M L -> 2 <= length L ->
     /\ In a L /\ In b L /\ a < b
     /\ d_steps d' = d_steps d ++ [step_new a b v sz]
     /\ NInv n0 s' d' M' (without a L)
-    /\ merge_facts s s' M M' L a b v.
+    /\ merge_facts s s' M M' L a b v
+    /\ (forall x w, In x L -> x <> a -> x <> b -> (cellv M x a w \/ cellv M x b w) -> ltb w v = false).
 Proof.
   intros HI HL2. destruct (chain_entry HI HL2) as (a0 & b0 & rest0 & mn0 & Hentry & Hc0 & Hb0 & Hnn0 & Hst0).
   destruct HI as (HA & Hwf & HMo & HN & Hnd & Hsz & Hpos & Hobs & Hcount & _).
@@ -284,8 +285,8 @@ Proof.
     + lia.
     + destruct (Nat.max_spec x y) as [[_ ->]|[_ ->]]; [exact (HB y Hy)|exact (HB x Hx)].
     + intros z Hz Hza' Hzb' E. inversion E as [[E1 E2]]. lia. }
-  split; [|split; [exact Hcab|exists za, zb, sa, sb; split; [exact Hza|]; split; [exact Hzb|]; split; [reflexivity|];
-                   split; [exact Hsabval|]; split; [exact Hin|exact Hsame]]].
+  split; [|split; [split; [exact Hcab|exists za, zb, sa, sb; split; [exact Hza|]; split; [exact Hzb|]; split; [reflexivity|];
+                   split; [exact Hsabval|]; split; [exact Hin|exact Hsame]]|exact Hfar]].
   (* the invariant *)
   unfold NInv. cbn [st_with_active st_with_sizes st_with_chain st_active st_sizes st_chain d_steps d_obs].
   split; [exact HA'|]. split; [exact Hwf'|]. split; [lia|]. split; [lia|].
